@@ -68,12 +68,17 @@ func init() {
 		Cases: func(env *core.Env) []core.Case {
 			r := env.Rand
 			var res []core.Case
-			for i := 0; i < env.Pick(900, 12000); i++ {
+			for i := 0; i < env.Pick(1500, 15000); i++ {
 				capacity := r.Intn(5)
 				delay := []int{0, 0, 50, 300}[r.Intn(4)]
 				switch r.Intn(3) {
 				case 0: // optimisation stream
 					front, n, strict, cons, obj := coveringProblem(r)
+					if r.Intn(3) == 0 { // larger problems: longer chains of improving models
+						front, n, strict, cons, obj = coveringProblemN(r, 8+r.Intn(3))
+					} else if r.Intn(3) == 0 {
+						front, n, strict, cons, obj = starsProblem(r)
+					}
 					cfg := gen.Cfg(false, 0, 0, false, false, false)
 					cfg["cap"], cfg["delayUs"] = capacity, delay
 					res = append(res, gen.APICase(front, n, strict, cons, true, obj, cfg, []gen.M{gen.OpChan("optimal", true)}))
@@ -114,6 +119,9 @@ func init() {
 				cov["op."+op]++
 				if l := sub(e, "stream"); len(l) >= 2 {
 					cov["stream.improvements"]++
+					if len(l) >= 3 {
+						cov["stream.improvements>=3"]++
+					}
 					nt = true
 				}
 				if l, _ := e["models"].([]any); len(l) >= 2 {
@@ -124,6 +132,6 @@ func init() {
 			return nt
 		},
 		Rule:    "cases: optimisation problems (Optimal with a result channel), enumeration problems (Enumerate with a model channel) and WCNF problems (maxsat forwarding goroutine) x consumer behaviours (channel capacity 0..4, delays of 0 / 50 / 300 microseconds between receives); the consumer-side sequence, the close event and the returned value are validated; non-trivial = at least two results delivered",
-		Require: []string{"op.optimal", "op.enum", "op.maxsat-optimal", "cap.0", "cap.1", "cap.4", "consumer.delayed", "stream.improvements", "stream.models"},
+		Require: []string{"op.optimal", "op.enum", "op.maxsat-optimal", "cap.0", "cap.1", "cap.4", "consumer.delayed", "stream.improvements", "stream.improvements>=3", "stream.models"},
 	})
 }
